@@ -48,6 +48,7 @@ TReset ==
            /\ g' = Ghost0(D0, ev.rlen, ev.rday, ev.hist)
 
 TNow == IsEvent("Now") /\ SetNow(ev.t)
+TZone == IsEvent("Zone") /\ ShiftZone(ev.z, ev.t)
 
 TBegin ==
     /\ IsEvent("Begin")
@@ -131,7 +132,7 @@ TCrash ==
     /\ MatchDir(dir, ev.files)
     /\ Crash
 
-TNext == TReset \/ TNow \/ TBegin \/ TSys \/ TEnd \/ TEndQ \/ TFatal \/ TCrash
+TNext == TReset \/ TNow \/ TZone \/ TBegin \/ TSys \/ TEnd \/ TEndQ \/ TFatal \/ TCrash
 
 \* the action properties of QtlRotation, not applied to the step that starts the next recorded execution
 ResetStep == l <= Len(TraceLog) /\ TraceLog[l].e = "Reset"
